@@ -62,7 +62,8 @@ def make_init(c, rng):
     pids = rng.sample(range(1, max(9, n + 1)), n)
     rids = rng.sample(range(1, 9), n_rdm)
     conds = [rng.randrange(min(n, 4)) for _ in range(n)]
-    grps = [rng.randrange(2) for _ in range(n)]
+    # large, close numeric labels (ids, time stamps): selection must stay exact
+    grps = [rng.randrange(2) + c.get('big_off', 0) for _ in range(n)]
     rn = [RNAMES[rng.randrange(2)] for _ in range(n_rdm)]
     mats = np.zeros((n_rdm, n, n))
     nanp = rng.choice([0, 0, 0.15])
@@ -263,7 +264,7 @@ def generate(rng, tier):
         out.append(dict(kind='sequence', seed=rng.randrange(10 ** 9), nops=rng.randint(1, maxlen),
                         n_rdm=rng.randint(1, 4), n_cond=rng.randint(2, 6),
                         condtype=rng.choice(['str', 'int']), desctype=rng.choice(['list', 'array']),
-                        init_form=rng.choice(['matrix', 'vector'])))
+                        init_form=rng.choice(['matrix', 'vector']), big_off=rng.choice([0, 0, 100000])))
     for _ in range(n // 5):
         out.append(dict(kind='partials', seed=rng.randrange(10 ** 9), n_rdm=rng.randint(1, 3), n_cond=rng.randint(3, 6),
                         condtype='int', desctype=rng.choice(['list', 'array']), init_form='matrix', nops=3))
@@ -291,11 +292,25 @@ def run(c):
     src = dict(pats=[list(t) for t in init['pats']], rids=[it[0] for it in init['items']],
                nan=[[k for k, v in enumerate(it[1]) if v is None] for it in init['items']])
     steps = []
+    # witnesses: every earlier object of the history (sources of round trips, copies, subsets ...) and the array the first
+    # object was built on must still hold what they held, whatever is done to later objects
+    arr0 = r.dissimilarities
+    arr0_copy = arr0.copy()
+    witnesses = []
     for _ in range(c['nops']):
+        old = r
+        old_state = state_of(c, old)
         op, r = apply_random_op(c, rng, r)
+        if r is not old:
+            witnesses.append((old, old_state))
         st = state_of(c, r)
         steps.append(dict(op=op, state=st))
-    return dict(init=init, steps=steps)
+    for k, (w, wst) in enumerate(witnesses):
+        if state_of(c, w) != wst:
+            return {'error': 'EARLIER_OBJECT_CHANGED', 'msg': f'the source object of step {k} changed when later objects were operated on'}
+    if not any(s['op'][0] in ('Reorder', 'SortAlpha', 'SortList', 'Append') for s in steps[:1]) and False:
+        pass
+    return dict(init=init, steps=steps, first_array_unchanged=bool(np.array_equal(arr0, arr0_copy, equal_nan=True)))
 
 
 def run_partials(c, rng, r, init):
